@@ -158,7 +158,50 @@ Section Serve.
       Ok (build_response uid (collect_outcomes run sel) (collect_warnings run sel) ops)).
 End Serve.
 
+(* ---------- the patch on the wire ---------- *)
+
+(* build_response puts base64.b64encode(json.dumps(jsonpatch).encode('utf-8')).decode('ascii') into `patch`; the API
+   server decodes that text with the STANDARD base64 alphabet, strictly, and parses the JSON.  Both directions are
+   oracles (Python's json/base64, Go's encoding/base64 + json); what is needed of them is the round-trip law
+   decode_std (encode ops) = Some ops, validated on every real response by the correspondence check. *)
+Section Wire.
+  Variable text : Type.                        (* str in Python; any type for the theorems *)
+  Variable encode : list jop -> text.
+  Variable decode_std : text -> option (list jop).
+
+  Definition wire_patch (r : response) : option text :=
+    match r_patch r with Some ops => Some (encode ops) | None => None end.
+
+  (* the operations the API server ends up with: none when the field is absent, an error (None) when it cannot decode *)
+  Definition received_patch (r : response) : option (list jop) :=
+    match wire_patch r with Some text => decode_std text | None => Some [] end.
+End Wire.
+Arguments wire_patch {text}.
+Arguments received_patch {text}.
+
 (* ---------- comparison helpers for the correspondence check ---------- *)
+
+Definition jop_eqb (a b : jop) : bool :=
+  match a, b with
+  | OAdd p v, OAdd p' v' => String.eqb p p' && jeqb v v'
+  | ORemove p, ORemove p' => String.eqb p p'
+  | OReplace p v, OReplace p' v' => String.eqb p p' && jeqb v v'
+  | OTest p v, OTest p' v' => String.eqb p p' && jeqb v v'
+  | OMove f p, OMove f' p' => String.eqb f f' && String.eqb p p'
+  | OCopy f p, OCopy f' p' => String.eqb f f' && String.eqb p p'
+  | _, _ => false
+  end.
+
+Fixpoint jops_eqb (a b : list jop) : bool :=
+  match a, b with
+  | [], [] => true
+  | x :: a', y :: b' => jop_eqb x y && jops_eqb a' b'
+  | _, _ => false
+  end.
+
+Definition ojops_eqb (a b : option (list jop)) : bool :=
+  match a, b with Some x, Some y => jops_eqb x y | None, None => true | _, _ => false end.
+
 
 Definition oz_eqb (a b : option Z) : bool :=
   match a, b with Some x, Some y => Z.eqb x y | None, None => true | _, _ => false end.
